@@ -81,7 +81,7 @@ def parseRow (ws : List String) : Option (Nat × OptInfo × Flags) :=
     let info := parseDef t flags.list df info
     let has (c : Char) : Bool := cbs.toList.contains c
     let info := { info with parseCb := has 'p', validCb := has 'v', valid2Cb := has 'w', freeCb := has 'f',
-                            printCb := has 'r',
+                            printCb := has 'r', simple := has 's' && !flags.list && (t == .int || t == .float || t == .bool || t == .str),
                             func := if has 'I' then .incl else if has 'U' then .user else .none }
     some (d.toNat!, info, flags)
   | _ => none
@@ -209,7 +209,10 @@ def showVal : Val → String
 
 mutual
 partial def dumpOpt (depth : Nat) (o : Opt) : List String :=
-  let head := s!"V {depth} {hexOfBytes o.name} {tyName o.ty} {o.flags.toNat} {o.vals.length} {hexOpt o.comment}"
+  -- a CFG_SIMPLE option never has the parser's "replace" mark taken back (the library looks at it only for cells of its
+  -- own): the bit is left out of the comparison on both sides
+  let fl : Flags := if o.info.simple then { o.flags with reset := false } else o.flags
+  let head := s!"V {depth} {hexOfBytes o.name} {tyName o.ty} {fl.toNat} {o.vals.length} {hexOpt o.comment}"
   if o.ty == .sec then
     head :: o.vals.flatMap (fun v => match v with
       | .sec s => s!"U {depth} {hexOpt s.info.title} {s.info.flags.toNat}" :: dumpCfg (depth + 1) s
